@@ -55,6 +55,31 @@ def gen(rng, tier):
                 cs.append(Case("verify %s %s %s" % (hx(bytes(q)), hx(msg), hx(sig)), cls="verify/special-pk", expect="err"))
                 # S = 0 with a small-order key: R = identity-like encodings
                 cs.append(Case("verify %s %s %s" % (hx(bytes(q)), hx(msg), hx(bytes(q) + bytes(32))), cls="verify/special-both", expect="err"))
+    # malleation family in pre-hashed mode too
+    for bi in range(3 if tier == "quick" else 12):
+        seed, pk, sk = keypair(rng)
+        msg = rbytes(rng, 5 + bi)
+        sigp = refs.ed_sign(seed, msg, ph=True)
+        S = int.from_bytes(sigp[32:], "little")
+        k = 1
+        while S + k * refs.ED_L < (1 << 256):
+            cs.append(Case("verify_ph %s %s %s" % (hx(pk), hx(sigp[:32] + (S + k * refs.ED_L).to_bytes(32, "little")), hx(msg)), cls="verify_ph/S+kL", expect="err",
+                           meta={"why": "non-canonical scalar S+%dL accepted in pre-hashed mode" % k}))
+            k += 1
+        for f in flips(sigp)[:: 7]:
+            cs.append(Case("verify_ph %s %s %s" % (hx(pk), hx(f), hx(msg)), cls="verify_ph/flip-sig", expect="err"))
+    # forged signatures with a small-order commitment R under a mixed-order public key (A = a·B + T):
+    # they satisfy the group equation, only the small-order check on R rejects them
+    for i in range(12 if tier == "quick" else 120):
+        f = refs.torsion_forgery(rng, pure=(i % 3 != 2))
+        if f:
+            pkm, msg, sig = f
+            if i % 3 != 2:
+                cs.append(Case("verify %s %s %s" % (hx(pkm), hx(msg), hx(sig)), cls="verify/torsion-forgery", expect="err",
+                               meta={"why": "a signature whose R has small order was accepted (mixed-order public key)"}))
+            else:
+                cs.append(Case("verify_ph %s %s %s" % (hx(pkm), hx(sig), hx(msg)), cls="verify_ph/torsion-forgery", expect="err",
+                               meta={"why": "a pre-hashed signature whose R has small order was accepted"}))
     # RFC 8032 vectors
     seed = bytes.fromhex("9d61b19deffd5a60ba844af492ec2cc44449c5697b326919703bac031cae7f60")
     pk = refs.ed_public(seed)
